@@ -24,8 +24,8 @@ ASSUMPTIONS = c07.ASSUMPTIONS + [
     'line breaks inside ticked phrases are content, not layout (not generated)',
 ]
 
-CHARS = list('ab1 \n\t;=.:()[],"\'/*-+<>!|&%^_?') + ['\r', 'E', '#', 'é', '\x00']
-TOKENS = ['x', 'y1', '1', '1.5', '"s"', "'p'", ';', '=', '==', '!=', '.', '::', 'NS::', '(', ')', '[', ']', ',', ':',
+CHARS = list('ab1 \n\t;=.:()[],"\'/*-+<>!|&%^_?') + ['\r', 'E', '#', 'é', '\x00', '\\', 'u', 'f']
+TOKENS = ['x', 'y1', '1', '1.5', '1.5f', '"s"', '"\\"', '"\\u12"', "'p'", ';', '=', '==', '!=', '.', '::', 'NS::', '(', ')', '[', ']', ',', ':',
           '->', '*', '/', '+', '-', '%', '<', '<=', '>', '|', '&', '^', '?',
           'select', 'any', 'many', 'one', 'from', 'instances', 'of', 'related', 'by', 'where', 'if', 'elif', 'else', 'end if',
           'while', 'end while', 'for', 'each', 'in', 'end for', 'loop', 'then', 'create', 'object', 'instance', 'event',
